@@ -34,7 +34,8 @@ def r_key_api(ctx):
     fns = api_fns(F)
     ctx.floor(rule, 'item API methods', len(fns), 7)
     for f in fns:
-        item_arg = f.arg_by_name('item')
+        u32s = [l for l in f.arg_locals() if f.local_ty(l) == 'u32']
+        item_arg = u32s[0] if len(u32s) == 1 else f.arg_by_name('item')
         if not ctx.need(item_arg is not None, rule, 'item parameter of ' + f.path):
             continue
         found = False
@@ -65,7 +66,7 @@ def r_key_api(ctx):
         if good:
             ki = key_info(gets[0][0].arg_term(gets[0][1]))
             good = ki is not None and ki[0] == 'item' and strip(ki[1])[0] == 'arg' and strip(ki[2])[0] == 'arg' \
-                and il.local_name(strip(ki[1])[1]) == 'index' and il.local_name(strip(ki[2])[1]) == 'item'
+                and il.local_ty(strip(ki[1])[1]) == 'u16' and il.local_ty(strip(ki[2])[1]) == 'u32'
         ctx.check(good, rule, 'item_leaf/get', il.loc(), 'get(Key::item(index, item))', 'reader::item_leaf does not read Key::item(index, item)')
         # Some(leaf) only for a Leaf node, the leaf of that very get
         oks = [(b, t) for b, k, t in paths.ret_assigns(il) if k == 'ok']
